@@ -136,6 +136,10 @@ func run(r *mon.Run) {
 		case 5:
 			h.Add("Content-Type", "second/type")
 			shape = "ct-two-lines"
+		case 6:
+			// a resource that is already content-encoded: the MI coding is added as a further field line
+			h.Add("Content-Encoding", mon.Pick(g, []string{"gzip", "br", "identity"}))
+			shape = "pre-encoded"
 		}
 		spec.RespHeaders = h
 		spec.Status = mon.Pick(g, []int{200, 200, 203, 404, 302, 500})
